@@ -42,6 +42,7 @@ func c01Valid(r *lib.Rng, n int) string {
 
 var c01SpecialLines = []string{"local x = _G", "print(_G", "_G.", "_G.x", "_G[", "_G[\"", "local s = self", "self.", "self:", "require(", "require(\"", "require(\"a.", "dofile(\"",
 	"---@", "---@type ", "---@param ", "---@field ", "--", "...", "a.b.c.", "a:", "(\"s\"):", "#", "::l::", "goto l", "local t = {", "t[#t+1] = ", "x = x..", "x = #", "f(function()",
+	"(\"_G\").x = 1", "(\"_G\").", "(\"s\").y = 2", "(\"_G.a\").z = 3", "function ff() (\"_G\").w = 4 end", "(\"_G\")[1] = 5", "(1).x = 2", "(nil).x = 3",
 	"local _ENV = ", "_ENV.", "string.", "string.format(", "math.", "io.", "os.", "table.insert(", "coroutine.", "package.", "debug.", "utf8.", "local function", "function t.", "function t:", "for i = ", "for k, v in ",
 	// text cut inside a multi-byte character (a string, a comment that documents a function, an illegal token)
 	"x = \"\xE4\xB8\"", "local s = '\xF0\x9F\x98'", "y = \"\xE4\"", "-- \xE4\xB8\nfunction foo() end\nfoo()", "-- caf\xC3\nlocal function bar() end\nbar()", "z = \xE4\xB8", "--[[ \xF0\x9F ]] local w = 1"}
@@ -97,8 +98,16 @@ func genC01Scenario(seed int64, idx int) c01Scenario {
 		if r.Chance(1, 2) {
 			ls = append(ls, "---@enum start", "local E = {", "  A = 1,", "  B = (2),", "  C = ((3)),", "}", "---@enum end")
 		}
+		if r.Chance(1, 2) {
+			// enum values that are parenthesised names / calls (the parentheses survive parsing), compared pairwise by the
+			// duplicate-value check, which only a configuration file can switch on
+			ls = append(ls, "---@enum start", "A2 = (v0)", "A3 = (v0)", "A4 = ((v1))", "A5 = (print(1))", "A6 = (v0.x)", "---@enum end")
+		}
 		ls = append(ls, "print(v0, v1, v2)")
 		sc.files["main.lua"] = strings.Join(ls, "\n") + "\n"
+		if r.Chance(1, 2) {
+			sc.files["luahelper.json"] = []string{"{}", "{\"OpenErrorTypes\":[22,23,24,25,26,27,28,29]}"}[r.Intn(2)]
+		}
 	case 3: // cyclic classes / aliases with indexed access
 		sc.kind = "annot-cycles"
 		w := genC15World(r)
@@ -114,6 +123,22 @@ func genC01Scenario(seed int64, idx int) c01Scenario {
 		// a function-type alias declared in ANOTHER file, used through a call
 		sc.files["al.lua"] = "---@class AlK\n---@field k1 number\n\n---@alias HandlerZ fun():AlK\n---@alias HandlerY HandlerZ\n"
 		sc.files["main.lua"] += "---@type HandlerZ\nlocal hz = nil\nprint(hz().k1, hz())\n---@type HandlerY\nlocal hy = nil\nprint(hy().k1)\n"
+		// the checks that walk class hierarchies (field of class, assignment type) and the per-entry-file second pass are
+		// switched on by a configuration file only: table literals and member reads typed by (possibly cyclic) classes, a
+		// method named like a non-function field
+		c0 := w.classes[0]
+		f0 := c0.decls[0].fields[0]
+		sc.files["main.lua"] += "---@class CyA : CyB\n---@field a number\n---@class CyB : CyA\n---@field b number\n---@type CyA\nlocal cya = { zzz = 1 }\n---@type CyB\nlocal cyb = {}\nprint(cya.zzz, cyb.yyy)\n" +
+			"---@param p CyA\nlocal function cyf(p) print(p.zzz) end\nprint(cyf)\n" +
+			"---@type " + c0.name + "\n" + c0.name + "tab = {}\nfunction " + c0.name + "tab:" + f0 + "(p) return p end\nfunction " + c0.name + "tab." + f0 + "(q) return q end\n"
+		switch r.Intn(6) { // half of these scenarios stay in client-settings mode
+		case 0:
+			sc.files["luahelper.json"] = "{\"OpenErrorTypes\":[22,23,24,25,26,27,28,29]}"
+		case 1:
+			sc.files["luahelper.json"] = "{\"ProjectFiles\":[\"main.lua\"],\"OpenErrorTypes\":[22,26]}"
+		case 2:
+			sc.files["luahelper.json"] = "{\"ProjectFiles\":[\"main.lua\",\"a.lua\"]}"
+		}
 	case 4: // configuration file mode
 		sc.kind = "config"
 		names := []string{"import", "im(port", "a+*", "[x", "req\\", "ok"}
@@ -170,6 +195,20 @@ func genC01Scenario(seed int64, idx int) c01Scenario {
 			s = "local f = " + strings.Repeat("function() return ", d) + "1" + strings.Repeat(" end", d)
 		}
 		sc.files["main.lua"] = s + "\nprint(x)\n"
+		if r.Chance(1, 3) {
+			// wide instead of deep: several hundred names in one declaration / assignment list, initialised by one call
+			var ns []string
+			nn := []int{255, 256, 257, 300, 520}[r.Intn(5)]
+			for i := 1; i <= nn; i++ {
+				ns = append(ns, fmt.Sprintf("v%d", i))
+			}
+			ret := "---@return number, string\n"
+			if r.Chance(1, 2) {
+				ret = ""
+			}
+			sc.files["main.lua"] = ret + "local function wf() return 1 end\nlocal " + strings.Join(ns, ", ") + " = wf()\nprint(v256)\nprint(v" + fmt.Sprint(nn) + ")\nlocal y = v256\nprint(y.k)\n" +
+				strings.Join(ns, ", ") + " = wf()\nprint(v255)\n"
+		}
 	case 8: // more files than worker goroutines (NumCPU+2): every dispatch loop has to refill its workers
 		sc.kind = "many-files"
 		nf := runtime.NumCPU() + 3 + r.Intn(30)
@@ -231,8 +270,8 @@ func runC01Scenario(sc c01Scenario, idx int, res *lib.Result) {
 	sweep := func(t string) bool {
 		lines := strings.Split(t, "\n")
 		for ln, l := range lines {
-			// the first 14 lines and the last 8 (scenario families append their special constructs at the end)
-			if ln >= 14 && ln < len(lines)-8 {
+			// the first 14 lines and the last 24 (scenario families append their special constructs at the end)
+			if ln >= 14 && ln < len(lines)-24 {
 				continue
 			}
 			cols := []int{0, len(l) / 2, len(l)}
@@ -468,9 +507,14 @@ func runC01(res *lib.Result, tier string, seed int64, args []string) error {
 		}
 	}
 	res.Extra["scenario_kinds"] = kinds
-	if tier == "thorough" {
-		// extreme inputs (finding class K1): each in its own child, a crash or a stall is expected
-		for x := 0; x < 3; x++ {
+	{
+		// extreme inputs (finding class K1): each in its own child, a crash or a stall is expected; the quick tier
+		// runs the first one (the canonical replay of the recorded finding), the thorough tier all three
+		nExt := 1
+		if tier == "thorough" {
+			nExt = 3
+		}
+		for x := 0; x < nExt; x++ {
 			progress := filepath.Join(work, "progress")
 			cmd := exec.Command(os.Args[0], "C01child", "--tier", tier, "--seed", fmt.Sprint(seed))
 			cmd.Env = append(os.Environ(), fmt.Sprintf("C01_EXTREME=%d", x), "C01_PROGRESS="+progress, "VERIF_WORK="+work)
